@@ -75,6 +75,39 @@ pub fn run(c: &Case) -> Outcome {
         out.fail("blit:wrote-behind-buffer", format!("{} canary words behind the window buffer were overwritten (buffer len {} expected {})", damaged, buffer.len(), n));
         return out;
     }
+    // the decoded image is a function of the event alone: painting the same event again, after some other bitmap went through
+    // the decoder, must give the same result and the same pixels
+    {
+        let mut scratch: Vec<u32> = vec![0x0BAD_F00Du32; 64 * 64];
+        let w16 = 4 + (c.img_w % 5);
+        let other = BitmapEvent { dest_left: 0, dest_top: 0, dest_right: w16 - 1, dest_bottom: 3, width: w16, height: 4, bpp: 16, is_compress: true, data: vec![0x70 | 0x0F, 0x1F, 0xF8, 0x60 | 0x1F, 0xE0, 0x07, 0x60 | 0x10, 0xFF, 0xFF] };
+        let _ = guarded(|| mstsc::blit(&mut scratch, 64, other));
+        // same geometry as the case, other contents
+        let mut d2 = c.data.clone();
+        for b in d2.iter_mut() {
+            *b = !*b;
+        }
+        let other2 = BitmapEvent { dest_left: 0, dest_top: 0, dest_right: c.img_w.min(63).saturating_sub(1), dest_bottom: c.img_h.min(63).saturating_sub(1), width: c.img_w, height: c.img_h, bpp: c.bpp, is_compress: c.compress, data: d2 };
+        if (c.img_w as usize) * (c.img_h as usize) <= 64 * 64 {
+            let _ = guarded(|| mstsc::blit(&mut scratch, 64, other2));
+        }
+        let mut again = before.clone();
+        let ev2 = BitmapEvent { dest_left: c.left, dest_top: c.top, dest_right: c.right, dest_bottom: c.bottom, width: c.img_w, height: c.img_h, bpp: c.bpp, is_compress: c.compress, data: c.data.clone() };
+        match guarded(|| mstsc::blit(&mut again, ww, ev2)) {
+            Guarded::Panicked(p) => {
+                out.fail(format!("blit:other:{}", p.signature()), format!("the second painting of the same event panicked: '{}' at {}:{}", p.message, p.file, p.line));
+                return out;
+            }
+            Guarded::Done(r2, _) => {
+                // after an error the window content is unspecified; two successful paintings must agree pixel for pixel
+                if r2.is_ok() != res.is_ok() || (res.is_ok() && again[..] != buffer[..n]) {
+                    let diff = again.iter().zip(buffer.iter()).position(|(a, b)| a != b);
+                    out.fail("blit:depends-on-earlier-bitmaps", format!("the same bitmap event painted twice (another bitmap decoded in between) gave Ok={} / Ok={} and differs at window pixel {:?}; window {}x{} rect ({},{})-({},{}) image {}x{} bpp {} compressed {}", res.is_ok(), r2.is_ok(), diff, ww, wh, c.left, c.top, c.right, c.bottom, c.img_w, c.img_h, c.bpp, c.compress));
+                    return out;
+                }
+            }
+        }
+    }
     match res {
         Err(_) => {
             out.label("err");
